@@ -278,6 +278,28 @@ def run(prop: str, tier: str, seed: int) -> int:
                                                                             "control": ca.tolist()},
                     lambda: sysm.equations(sa, 0.5, ca, out))
             n_runs += 1
+    # generated networks requested in orders in which a sloppy cache key would hand out the network of ANOTHER
+    # architecture (then the kernel writes / reads outside vectors sized for the requested one)
+    from moptipyapps.dynamic_control.controllers.ann import make_ann
+    for a in [a for a in vars(make_ann) if a.startswith("__cache_")]:
+        delattr(make_ann, a)
+    reqs = [(2, 2, [3]), (2, 1, [3]), (3, 1, [2]), (3, 2, [2]), (2, 1, [1, 12]), (2, 1, [11, 2]), (2, 1, [12, 1]),
+            (2, 3, [1]), (2, 1, [2, 3]), (2, 1, [3, 2]), (3, 2, [1]), (2, 1, [])]
+    rng.shuffle(reqs)
+    for pos, (sd, cd, layers) in enumerate(reqs + reqs[::-1]):
+        if pos == len(reqs):      # second pass in the opposite order, from an empty cache again
+            for a in [a for a in vars(make_ann) if a.startswith("__cache_")]:
+                delattr(make_ann, a)
+        ctl = make_ann(sd, cd, list(layers))
+        # the vectors are sized from the REQUEST (what a caller who asked for this architecture allocates)
+        npar = sum(w * (1 + (sd if i == 0 else layers[i - 1])) for i, w in enumerate(layers)) \
+            + cd * (2 + (layers[-1] if layers else sd))
+        sa, pa, out = np.array([rng.uniform(-2, 2) for _ in range(sd)]), \
+            np.array([rng.uniform(-1, 1) for _ in range(npar)]), np.empty(cd)
+        guarded(rep, f"controller:make_ann({sd},{cd},{layers})", f"ann-request-{sd}-{cd}-{'_'.join(map(str, layers))}-{n_runs}",
+                {"system": "generated", "request": [sd, cd, list(layers)]},
+                lambda: ctl.controller(sa, 0.0, pa, out))
+        n_runs += 1
     rep.family("controllers + system equations (exact-size vectors)", n_runs - n0, n_runs - n0)
 
     # ---- simulation post-processing kernels (figure of merit, time and differential extraction)
@@ -361,6 +383,17 @@ def replay(prop: str, case: dict) -> dict:
                 m["rev_ea"](case["i"], case["j"], n, inst, xa.copy(), y)
                 h = _np.zeros(int(inst.tour_length_upper_bound) + 1, dtype=_np.int64)
                 m["rev_fea"](case["i"], case["j"], n, inst, h, xa.copy(), y)
+        elif "request" in case:
+            # one request in a fresh process cannot collide with another architecture's cache entry: the recorded
+            # failure depends on the order of requests, which only the full run exercises
+            from moptipyapps.dynamic_control.controllers.ann import make_ann
+            sd, cd, layers = case["request"]
+            ctl = make_ann(sd, cd, list(layers))
+            npar = sum(w * (1 + (sd if i == 0 else layers[i - 1])) for i, w in enumerate(layers)) \
+                + cd * (2 + (layers[-1] if layers else sd))
+            ctl.controller(_np.zeros(sd), 0.0, _np.zeros(npar), _np.empty(cd))
+            return {"clause": "ok", "case": case,
+                    "mode": "re-executed (a single request; the order of requests is only exercised by the full run)"}
         elif "system" in case:
             from moptipyapps.dynamic_control import ode as odem
             from moptipyapps.dynamic_control.controllers.ann import anns
